@@ -12,6 +12,7 @@ pub mod c09;
 pub mod c10;
 pub mod c13;
 pub mod c14;
+pub mod c15;
 pub mod c17;
 pub mod c18;
 pub mod c20;
@@ -27,6 +28,8 @@ pub mod c29;
 pub mod c30;
 pub mod c31;
 pub mod c32;
+pub mod c33;
+pub mod c34;
 pub mod c35;
 pub mod crash;
 pub mod exprlib;
@@ -50,6 +53,7 @@ pub const REGISTRY: &[Entry] = &[
     Entry { id: "C10", level: "exploration", run: c10::run },
     Entry { id: "C13", level: "exploration", run: c13::run },
     Entry { id: "C14", level: "exploration", run: c14::run },
+    Entry { id: "C15", level: "exploration", run: c15::run },
     Entry { id: "C17", level: "fault_enumeration", run: c17::run },
     Entry { id: "C18", level: "exploration", run: c18::run },
     Entry { id: "C20", level: "exploration", run: c20::run },
@@ -65,6 +69,8 @@ pub const REGISTRY: &[Entry] = &[
     Entry { id: "C30", level: "exploration", run: c30::run },
     Entry { id: "C31", level: "exploration", run: c31::run },
     Entry { id: "C32", level: "exploration", run: c32::run },
+    Entry { id: "C33", level: "exploration", run: c33::run },
+    Entry { id: "C34", level: "exploration", run: c34::run },
     Entry { id: "C35", level: "exploration", run: c35::run },
 ];
 
